@@ -348,13 +348,34 @@ func c19BodyB3(c *mc.Ctx) {
 	c19check(c, k, 3)
 }
 
+// c19BodyRuns: longer inputs whose spilled runs hold three or four rows each (several runs, the
+// last one staying in memory), so that duplicates sit inside a run, across runs and across the
+// scaled block boundaries, and the sorter's row buffers are reused from one run to the next.
+func c19BodyRuns(c *mc.Ctx) {
+	needRewrite("blocksize:sorter")
+	minRows, maxRows := 5, 7
+	if c.Thorough() {
+		maxRows = 9
+	}
+	k := &c19cfg{cols: []string{"p", "q"}, setCols: true, pk: []int{0}}
+	nr := minRows + c.Choose(maxRows-minRows+1)
+	keys := []string{"a", "b", "c", "d"}
+	for i := 0; i < nr; i++ {
+		k.rows = append(k.rows, []string{mc.Pick(c, keys), []string{"x", "y"}[c.ChooseDev(2)]})
+	}
+	// a row of two one-byte cells counts 10 bytes: runs of 3 and of 4 rows
+	k.runSize = []uint64{30, 40}[c.Choose(2)]
+	c.Shard()
+	c19check(c, k, 3)
+}
+
 func init() {
 	register(&mc.Check{
 		ID:    "C19",
 		Level: "exploration",
 		Rule: "every sequence of 0..4 (thorough 5) rows over 3 columns with cells {'',a,b}x{'',a}x{x,y} x key in {none,[0],[1],[0,1],[1,0],[2,0]} x run size in {nothing spills, every row spills alone, spill after ~2 rows} " +
 			"x configuration {SetColumns as ingest does, optionally on a Sorter that already sorted another table (narrower, wider, keyed) and was Reset; key only with every subset of non-key columns removed as the merge collector does}; both outputs (SortedBlocks, SortedRows) of two identically fed sorters are compared with " +
-			"(plus, under the build-time overlay that scales the block size to 3 rows: every sequence of 0..5 (8) rows over 5 keys so that duplicates and spills straddle block boundaries) " +
+			"(plus, under the build-time overlay that scales the block size to 3 rows: every sequence of 0..5 (8) rows over 5 keys so that duplicates and spills straddle block boundaries; and every sequence of 5..7 (9) rows over 4 keys with spilled runs of 3 and of 4 rows, so that row buffers are reused from run to run) " +
 			"sort+dedupe of the input (component-wise byte order), with each other, block first keys with the blocks' first rows, and TMPDIR is listed after Close. non-trivial = at least two rows; distinct by full case description",
 		Assumptions: []string{
 			"when several input rows carry one key, any of them may be the one kept",
@@ -364,6 +385,8 @@ func init() {
 		Harnesses: []*mc.Harness{
 			{Name: "small-rows", Body: c19Body, DevBound: map[string]int{"quick": 1, "thorough": 1}, Budget: map[string]time.Duration{"quick": 60 * time.Second, "thorough": 10 * time.Minute}},
 			{Name: "b3-block-boundaries", Variant: "b3", Body: c19BodyB3, DevBound: map[string]int{"quick": 2, "thorough": 3},
+				Budget: map[string]time.Duration{"quick": 45 * time.Second, "thorough": 10 * time.Minute}},
+			{Name: "b3-multi-row-runs", Variant: "b3", Body: c19BodyRuns, DevBound: map[string]int{"quick": 1, "thorough": 2},
 				Budget: map[string]time.Duration{"quick": 45 * time.Second, "thorough": 10 * time.Minute}},
 		},
 	})
